@@ -117,8 +117,15 @@ def scopes_for_owner(owner: NixExpression) -> tuple[Scope, ...]:
             context_scopes = tuple(scopes) if scopes else inherited_scopes
             if context_scopes:
                 set_resolution_context(environment, context_scopes)
-                resolved_env = environment.value
-                if isinstance(resolved_env, AttributeSet):
+                try:
+                    resolved_env = environment.value
+                except ResolutionError:
+                    # The environment is bound outside the document (e.g. a
+                    # function argument): it contributes no known bindings.
+                    resolved_env = None
+                if resolved_env is None:
+                    pass
+                elif isinstance(resolved_env, AttributeSet):
                     env_scope = _scope_from_attrset(resolved_env, base=tuple(scopes))
                 else:
                     raise ResolutionError(
